@@ -52,7 +52,7 @@ func TestStandardShape(t *testing.T) {
 		"args := [.quote (.delim 0), .joinExcl [124], .quote (.delim 3)]",
 		"exclOver := 3",
 		"exclItem := .cat (.quote (.delimPrefix 3)) (.cat (.lit [91, 94]) (.cat (.quote .rangeVal) (.lit [93])))",
-		"format := [37, 115, 45, 63, 40, 92, 119, 43, 41, 40, 63, 58, 37, 118, 41, 37, 115]",
+		"format := [37, 115, 45, 63, 40, 92, 119, 43, 41, 40, 63, 58, 37, 115, 41, 37, 115]",
 	} {
 		if !strings.Contains(content, w) {
 			t.Errorf("missing %q in\n%s", w, content)
@@ -109,11 +109,39 @@ func TestDiagnostics(t *testing.T) {
 	f := filepath.Join(dir, "scanner.go")
 	os.WriteFile(f, []byte(head+std), 0o644)
 	model := filepath.Join(dir, "TokenReSrc.lean")
-	os.WriteFile(model, []byte("def stdTokenReSrc : TokenReSrc :=\n  { format := [37, 115, 45, 63, 40, 92, 119, 42, 41, 40, 63, 58, 37, 118, 41, 37, 115],\n"+
+	os.WriteFile(model, []byte("def stdTokenReSrc : TokenReSrc :=\n  { format := [37, 115, 45, 63, 40, 92, 119, 42, 41, 40, 63, 58, 37, 115, 41, 37, 115],\n"+
 		"    args := [.quote (.delim 0), .joinExcl [124], .quote (.delim 3)],\n    exclOver := 3,\n"+
 		"    exclItem := .cat (.quote (.delimPrefix 3)) (.cat (.lit [91, 94]) (.cat (.quote .rangeVal) (.lit [93]))) }\n"), 0o644)
 	_, _, broken, err := generate(f, model)
 	if err != nil || len(broken) != 1 || !strings.Contains(broken[0], "first difference at byte 7") {
 		t.Errorf("got %v %v", broken, err)
+	}
+}
+
+// the same pattern text spelled as a concatenation through named intermediates is read as the same structure
+func TestConcatenationSpelling(t *testing.T) {
+	concat := "func formTokenMatcher(delims []string) *regexp.Regexp {\n" +
+		"	exclusion := make([]string, 0, len(delims[3]))\n" +
+		"	for idx, val := range delims[3] {\n" +
+		"		exclusion = append(exclusion, regexp.QuoteMeta(delims[3][0:idx])+\"[^\"+regexp.QuoteMeta(string(val))+\"]\")\n" +
+		"	}\n" +
+		"	objLeft := regexp.QuoteMeta(delims[0])\n" +
+		"	tagRight := regexp.QuoteMeta(delims[3])\n" +
+		"	args := `(?:` + strings.Join(exclusion, \"|\") + `)`\n" +
+		"	pattern := objLeft + `-?(\\w+)` + args + tagRight\n" +
+		"	_ = fmt.Sprint\n" +
+		"	return regexp.MustCompile(pattern)\n" +
+		"}\n"
+	ca, pa, ba := run(t, std)
+	cb, pb, bb := run(t, strings.Replace(concat, "	_ = fmt.Sprint\n", "", 1)+"var _ = fmt.Sprint\n")
+	if len(ba) != 0 || len(bb) != 0 {
+		t.Fatalf("unexpected: %v / %v", ba, bb)
+	}
+	if pa != pb {
+		t.Fatalf("patterns differ: %q vs %q", pa, pb)
+	}
+	strip := func(c string) string { return c[strings.Index(c, "def genTokenReSrc"):] }
+	if strip(ca) != strip(cb) {
+		t.Fatalf("the two spellings are read differently:\n%s\n---\n%s", ca, cb)
 	}
 }
